@@ -222,6 +222,16 @@ def run_graph(res, tier, prop, oracle, project=None, classify=None, spec_key=Non
                 clean_stats["clean" if sp["clean"] else "not_clean"] += 1
                 if sp["clean"] and not sp["edges"]:
                     raise core.Infra(f"driver contradicts the theorem trace_edges_consistent on {rec['id']}")
+                if sp["clean"] and sp.get("reduceInit") and not sp.get("taint", True):
+                    raise core.Infra(f"driver contradicts the theorem typed_covers_taint on {rec['id']}")
+                if sp["clean"] and sp.get("reduceInit") and prop == "C03" and not binding_inconsistent(rec):
+                    # hypotheses of C03.typed_covers_taint hold (and call sites bind what the parameters declare): the
+                    # taint analysis of the Python oracle on the real MIR must agree with the theorem's conclusion
+                    clean_stats["taint_theorem_applies"] = clean_stats.get("taint_theorem_applies", 0) + 1
+                    dv_ = [t for k, t in viol if k == "declass"]
+                    if dv_ and len(res.broken) < 5:
+                        res.broken.append({"decl": "Taint.storeTaintOK (Lean, proved for every clean run) vs the taint oracle on the real MIR",
+                                           "msg": dv_[0][:400], "program": rec["id"], "events": rec["events"]})
                 if sp["clean"] and prop == "C05":
                     ev_ = [t for k, t in viol if k == "edge"]
                     if ev_ and len(res.broken) < 5:
